@@ -290,6 +290,41 @@ func main() {
 		}
 	}
 	r.Sample("logger level 1, global level -3, sampler none, WithLevel(0) -> not written; WithLevel(1) -> written with level 1")
+	// DisableSampling is a setter: after every sequence of up to 4 calls, a rejecting sampler is bypassed iff the LAST
+	// value set was true (and consulted exactly once per event otherwise)
+	zerolog.SetGlobalLevel(zerolog.TraceLevel)
+	for n := 0; n <= 4; n++ {
+		for bits := 0; bits < 1<<uint(n); bits++ {
+			zerolog.DisableSampling(false)
+			last := false
+			var seq []bool
+			for i := 0; i < n; i++ {
+				last = bits>>uint(i)&1 == 1
+				seq = append(seq, last)
+				zerolog.DisableSampling(last)
+			}
+			for _, admit := range []bool{false, true} {
+				cs := &countSampler{admit: admit}
+				w := &recLW{}
+				lg := zerolog.New(w).Sample(cs)
+				lg.Info().Msg("m")
+				lg.Log().Msg("m")
+				wantN, wantCalls := 2, 0
+				if !last {
+					wantCalls = 2
+					if !admit {
+						wantN = 0
+					}
+				}
+				r.Transitions++
+				r.Eval(fmt.Sprint("dis", seq, admit, w.n, cs.calls), true)
+				if w.n != wantN || cs.calls != wantCalls {
+					r.Violation("", "disable-sampling", fmt.Sprintf("after DisableSampling%v and a sampler that answers %v: two events gave %d writes (want %d) and %d sampler calls (want %d)", seq, admit, w.n, wantN, cs.calls, wantCalls), nil)
+				}
+			}
+		}
+	}
+	zerolog.DisableSampling(false)
 	// named level methods
 	type nm struct {
 		name string
